@@ -270,3 +270,28 @@ class OnlyRule:
 
     def run_rule(self, fn, *args) -> None:
         fn(*args, self)
+
+
+def schema_attrs(ctx: Ctx) -> set[str]:
+    """Attributes of the gateway object every store into which is a fresh `MessageSchema()` (the codec instance,
+    whatever it is called; collaborator objects of the gateway are flattened into it at parse time)."""
+    gw = ctx.cls("aiomysensors.gateway.Gateway")
+    stores: dict[str, list] = {}
+    for fl in gw.methods.values():
+        for f in fl:
+            for n in ctx.own_nodes(f):
+                if isinstance(n, (ast.Assign, ast.AnnAssign)) and n.value is not None:
+                    for t in n.targets if isinstance(n, ast.Assign) else [n.target]:
+                        for t2 in ast.walk(t):
+                            if isinstance(t2, ast.Attribute) and isinstance(t2.value, ast.Name) and t2.value.id == "self" and isinstance(t2.ctx, ast.Store):
+                                stores.setdefault(t2.attr, []).append((f, n.value))
+    out = set()
+    for a, vs in stores.items():
+        ok = True
+        for f, v in vs:
+            d = ctx.prog.resolve_expr(ctx.prog.origin(f.module, v), v.func) if isinstance(v, ast.Call) and isinstance(v.func, (ast.Name, ast.Attribute)) and not v.args and not v.keywords else None
+            if not (d is not None and d.kind == "class" and d.obj.fq == "aiomysensors.model.message.MessageSchema"):
+                ok = False
+        if ok:
+            out.add(a)
+    return out
